@@ -3,6 +3,7 @@
 mod ctx;
 mod fmtstress;
 mod negotiate;
+mod required;
 
 use serde_json::Value;
 
@@ -11,6 +12,7 @@ fn main() {
     match args.get(1).map(String::as_str) {
         Some("negotiate") => negotiate::serve(),
         Some("ctx") => ctx::serve(),
+        Some("required") => required::run(),
         Some("fmt-stress") => {
             let p: Value = serde_json::from_str(args.get(2).map(String::as_str).unwrap_or("{}")).unwrap();
             fmtstress::run(&p)
